@@ -126,10 +126,10 @@ def run(ctx, rep):
                 if d and d[0] == 'assign' and d[3]['k'] == 'ref' and place_fields(d[3]['place'])[:1] == ['instructions'] and d[3].get('mut'):
                     calls.add(callee_name(t))
         okset = {'alloc::vec::Vec::<T, A>::shrink_to_fit', 'core::mem::take', 'alloc::vec::Vec::<T, A>::clear'}
-        rep.ob(calls <= okset and w in ('compiler::Compiler::compile_ast', 'compiler::Compiler::new'), 'R02.2', w, 'writes Compiler.instructions',
+        rep.ob(calls <= okset, 'R02.2', w, 'writes Compiler.instructions',
                'only the emit primitives may add or change bytes; %s does %s' % (w, sorted(calls)), fn.loc())
     for w in sorted(writers.get('last_instruction', ())):
-        rep.ob(w in ('compiler::Compiler::emit_opcode', 'compiler::Compiler::remove_last_instruction', 'compiler::Compiler::new', 'compiler::Compiler::compile_ast'),
+        rep.ob(w in ('compiler::Compiler::emit_opcode', 'compiler::Compiler::remove_last_instruction', 'compiler::Compiler::new') or w in tables.top_compile_fns(ctx),
                'R02.2', w, 'writes Compiler.last_instruction', 'the peephole register is written only by emit_opcode / remove_last_instruction', F.fn(w).loc())
 
     # enum byte provenance
@@ -166,7 +166,7 @@ def run(ctx, rep):
 def check_halt(ctx, rep):
     """compile_ast ends every Ok path with emit_opcode(Halt) after the last statement"""
     F = ctx.facts()
-    fn = F.fn('compiler::Compiler::compile_ast')
+    fn = tables.bytecode_builder(ctx)
     n = 0
     for p in AbsInt(F, fn, max_paths=5000).run():
         r = simp(p.env.get('_0'))
@@ -286,14 +286,22 @@ def check_ranges(ctx, rep):
         if p.exit != 'return':
             continue
         n += 1
-        r = p.env.get('_0')
+        r = simp(p.env.get('_0'))
+        if r and r[0] == 'agg' and r[2] == 'Ok':
+            r = r[3][0]
+        elif r and r[0] in ('errof',) or (r and r[0] == 'agg' and r[2] == 'Err'):
+            continue
         src = uncast(r)
         # through try_into().unwrap()
         chain = []
         v = r
         for _ in range(8):
-            if v[0] == 'call' and (v[1].endswith('::unwrap') or v[1].endswith('try_into') or v[1].endswith('TryInto<U>>::try_into')):
+            if v[0] == 'call' and (v[1].endswith('::unwrap') or v[1].endswith('try_into') or v[1].endswith('TryInto<U>>::try_into')
+                                   or (v[1].startswith('compiler::') and len(v[2]) == 1 and 'Compiler' not in v[1])):
                 v = v[2][0]
+                continue
+            if v[0] == 'okval':
+                v = v[1]
                 continue
             if v[0] == 'cast':
                 v = v[1]
